@@ -28,6 +28,16 @@ from .client_tlspeer import CertInfo
 
 CA_CERTS = ("ca_rsa", "ca_ec", "ca_ec2")
 
+# LOOK-ALIKE CERTIFICATES: different certificates (other DER, other SHA-256) that agree with another certificate of the
+# pool in everything a careless comparison might look at instead of the DER:
+#   tw_serial_rsa / tw_serial_ec   copy subject, issuer, SERIAL NUMBER, validity and extensions of `rsa` / `ec`; own new key
+#   tw_serial_ca                   issued by the harness CA with the subject, serial number, validity and SAN of `ca_ec`; own new key
+#   tw_base, tw_key                a fresh self-signed certificate and its RE-ISSUE with the SAME KEY, subject and validity
+#                                  but another serial number
+TWIN_CERTS = ("tw_serial_rsa", "tw_serial_ec", "tw_serial_ca", "tw_base", "tw_key")
+# name -> the certificate it is a look-alike of
+TWIN_OF = {"tw_serial_rsa": "rsa", "tw_serial_ec": "ec", "tw_serial_ca": "ca_ec", "tw_key": "tw_base"}
+
 # host names that differ only in a character SQL's LIKE treats as a wildcard (`_` one character, `%` any run)
 LOOKALIKES = ["my_host.test", "my-host.test", "myxhost.test", "my%host.test", "fe80::1%lo", "fe80::1%xlo"]
 
@@ -82,6 +92,24 @@ def _make_leaf(ca_key, ca_cert, kind: str, cn: str, server: bool):
     return key, b.sign(ca_key, hashes.SHA256())
 
 
+def _look_alike(orig_der: bytes, kind: str, sign_key=None, key=None, new_serial: bool = False):
+    """a certificate with the subject, issuer, validity, extensions and (unless new_serial) serial number of `orig_der`
+    around another key (or, with `key`, the same key); signed by `sign_key` (default: self-signed)"""
+    from cryptography import x509
+    from cryptography.hazmat.primitives import hashes
+    from cryptography.hazmat.primitives.asymmetric import ec, rsa
+
+    orig = x509.load_der_x509_certificate(orig_der)
+    if key is None:
+        key = rsa.generate_private_key(65537, 2048) if kind == "rsa" else ec.generate_private_key(ec.SECP256R1())
+    b = (x509.CertificateBuilder().subject_name(orig.subject).issuer_name(orig.issuer).public_key(key.public_key())
+         .serial_number(x509.random_serial_number() if new_serial else orig.serial_number)
+         .not_valid_before(orig.not_valid_before_utc).not_valid_after(orig.not_valid_after_utc))
+    for ext in orig.extensions:
+        b = b.add_extension(ext.value, ext.critical)
+    return key, b.sign(sign_key or key, hashes.SHA256())
+
+
 def ensure(w: dict) -> dict:
     """idempotent; returns w["pki"]"""
     if "pki" in w:
@@ -93,8 +121,18 @@ def ensure(w: dict) -> dict:
     ca_pem = ca_cert.public_bytes(serialization.Encoding.PEM)
     Path(d, "ca.pem").write_bytes(ca_pem)
     store = w["certs"]
-    for name, kind in zip(CA_CERTS, ("rsa", "ec", "ec")):
-        key, cert = _make_leaf(ca_key, ca_cert, kind, "localhost", server=True)
+
+    def made():
+        for name, kind in zip(CA_CERTS, ("rsa", "ec", "ec")):
+            yield (name, *_make_leaf(ca_key, ca_cert, kind, "localhost", server=True))
+        yield ("tw_serial_rsa", *_look_alike(store.certs["rsa"].der, "rsa"))
+        yield ("tw_serial_ec", *_look_alike(store.certs["ec"].der, "ec"))
+        yield ("tw_serial_ca", *_look_alike(store.certs["ca_ec"].der, "ec", sign_key=ca_key))
+        bkey, bcert = _look_alike(store.certs["ec"].der, "ec", new_serial=True)
+        yield ("tw_base", bkey, bcert)
+        yield ("tw_key", *_look_alike(bcert.public_bytes(serialization.Encoding.DER), "ec", key=bkey, new_serial=True))
+
+    for name, key, cert in made():
         der = cert.public_bytes(serialization.Encoding.DER)
         cp, kp = f"{d}/{name}.pem", f"{d}/{name}.key"
         Path(cp).write_bytes(cert.public_bytes(serialization.Encoding.PEM))
